@@ -132,8 +132,26 @@ TYPE_ITEMS = [
 ]
 
 
+LINE_ITEMS = [
+    ("src/query.rs", r"pub struct QueryRef<'a, T: Queryable>\(&'a T, QueryPath\);"),
+    ("src/query.rs", r"pub type Queried<T> = Result<T, JsonPathError>;"),
+    ("src/parser.rs", r"pub type Parsed<T> = Result<T, JsonPathError>;"),
+]
+
+
 def extract_types(repo: Repo, log: list) -> str:
-    out = []
+    out = ["// E5c: JsonPathError (thiserror derive over pest types) is replaced by an opaque stand-in; it is only\n"
+           "// ever produced through `.into()` / `?` in the units under contract\npub struct JsonPathError { pub opaque: () }"]
+    for rel, pat in LINE_ITEMS:
+        m = re.search(pat, strip_comments(repo.read(rel)))
+        if not m:
+            raise AnchorLost(f"item not found in {rel}: {pat}")
+        txt = m.group(0)
+        if txt.startswith("pub struct QueryRef"):
+            txt = txt.replace("(&'a T, QueryPath)", "(pub &'a T, pub QueryPath)")
+            log.append("E5 QueryRef: private tuple fields made pub (single-file crate; specs name them)")
+        out.append(txt)
+        log.append(f"E5 item copied from {rel}: {m.group(0)[:40]}")
     for rel, hdr in TYPE_ITEMS:
         src = repo.read(rel)
         s, _, e = find_block_item(src, hdr)
@@ -346,6 +364,10 @@ def build_world(target: str | None, units: dict[str, Unit], repo: Repo, mutate=N
         p = os.path.join(CONTRACTS, f)
         if os.path.exists(p):
             parts.append(open(p).read())
+    qsrc = _norm(strip_comments(repo.read("src/query.rs")))
+    if _norm("pub trait Query { fn process<'a, T: Queryable>(&self, state: State<'a, T>) -> State<'a, T>; }") not in qsrc:
+        raise AnchorLost("trait Query: declaration differs from contracts/query_trait.rs")
+    log.append("E6 Query::process signature matches /repo")
     # group by impl header, keep store order
     groups: dict[str, list[Unit]] = {}
     for u in sorted(units.values(), key=lambda u: (u.order, u.name)):
